@@ -285,7 +285,7 @@ func runC06Order(k c06Case, perm []int) (vs []mon.V, obs []c06Obs, err error) {
 			x.Annotations[oracle.AnnCanaryUnpaused] = k.AnnUnpaused
 		}
 	})
-	on := mon.Of("canary-verdict", "no-panic", "paused-frozen")
+	on := mon.Of("canary-verdict", "no-panic", "paused-frozen", "condition-clock")
 	sync := func() {
 		r := c.Reconcile(sim.ActorERS, "ns1", crs)
 		evaluated++
@@ -454,7 +454,7 @@ func TestC06Verdict(t *testing.T) {
 // ("the first and the latest observed restart"). Canary pods restart, disappear and come back between syncs;
 // the model keeps the newest restart any sync has seen so far.
 func TestC06Timeline(t *testing.T) {
-	rec := evid.New("TestC06Timeline", "C06", "canary on three nodes, auto-fail thresholds out of reach; 3-8 events from {container restart on pod i, pod i removed, pod i re-created, time passes}, one canary sync after each; model: latest = newest restart seen by any sync so far, first = a restart time seen by the first sync that saw one; oracle after every sync: PodRestarting exists iff a restart was seen, lastUpdateTime = latest (never moves back), lastTransitionTime = first (never changes); non-trivial = a pod disappeared after its restart had been recorded; distinct by event list")
+	rec := evid.New("TestC06Timeline", "C06", "canary on three nodes (two containers per pod), auto-fail thresholds out of reach; 3-8 events from {container restart on pod i, pod i removed, pod i re-created, time passes}, one canary sync after each; model: latest = newest restart seen by any sync so far, first = a restart time seen by the first sync that saw one; oracle after every sync: PodRestarting exists iff a restart was seen, lastUpdateTime = latest (never moves back), lastTransitionTime = first (never changes); non-trivial = a pod disappeared after its restart had been recorded; distinct by event list")
 	t.Cleanup(func() {
 		if !t.Failed() {
 			rec.Done()
@@ -472,9 +472,9 @@ func TestC06Timeline(t *testing.T) {
 			AutoPause: &edsv1.ExtendedDaemonSetSpecStrategyCanaryAutoPause{Enabled: &no, MaxRestarts: &big},
 			AutoFail:  &edsv1.ExtendedDaemonSetSpecStrategyCanaryAutoFail{Enabled: &yes, MaxRestarts: &big}}
 		st := edsv1.ExtendedDaemonSetSpecStrategy{Canary: cn, ReconcileFrequency: &metav1.Duration{Duration: 10 * time.Second}}
-		p := prepare(c, "ns1", "foo", st, nil, "AB")
+		p := prepare(c, "ns1", "foo", st, nil, "AC") // template C: two containers
 		e := c.EDS("ns1", "foo")
-		crs := p.RS['B']
+		crs := p.RS['C']
 		if e == nil || e.Status.Canary == nil || e.Status.Canary.ReplicaSet != crs || len(e.Status.Canary.Nodes) != 3 {
 			rt.Fatalf("harness: canary not set up: %+v", e)
 		}
@@ -482,7 +482,7 @@ func TestC06Timeline(t *testing.T) {
 		nodes := append([]string(nil), e.Status.Canary.Nodes...)
 		pods := [3]string{}
 		for i := range nodes {
-			pods[i] = p.addPod(nodes[i], 'B', PSAvailable, time.Minute).Name
+			pods[i] = p.addPod(nodes[i], 'C', PSAvailable, time.Minute).Name
 		}
 		var latest, firstMin, firstMax time.Time
 		seen := false
@@ -556,7 +556,8 @@ func TestC06Timeline(t *testing.T) {
 			case "restart":
 				c.Advance(rapid.SampledFrom([]time.Duration{2 * time.Second, 40 * time.Second, 4 * time.Minute}).Draw(rt, fmt.Sprintf("event%d-after", i)))
 				if c.Pod("ns1", name) != nil {
-					c.Restart("ns1", name, 0, "Error")
+					// either container may be the one that restarts (the other one never did)
+					c.Restart("ns1", name, rapid.IntRange(0, 1).Draw(rt, fmt.Sprintf("event%d-container", i)), "Error")
 				}
 			case "remove":
 				if c.Pod("ns1", name) != nil {
@@ -573,7 +574,7 @@ func TestC06Timeline(t *testing.T) {
 							c.ForceRemovePod(q.Namespace, q.Name)
 						}
 					}
-					pods[idx] = p.addPod(nodes[idx], 'B', PSAvailable, time.Second).Name
+					pods[idx] = p.addPod(nodes[idx], 'C', PSAvailable, time.Second).Name
 				}
 			case "wait":
 				c.Advance(3 * time.Minute)
